@@ -174,5 +174,5 @@ def parts(tier):
     return [
         Part("enum-small-groups", "enum", check=check, cases=enum_cases, exhaustive=False, shards={"quick": 8, "thorough": 16}),
         Part("hyp-groupings", "hyp", check=check, strategy=lambda t: hyp_case(60 if t == "quick" else 150),
-             examples={"quick": 1600, "thorough": 16000}, shards={"quick": 16, "thorough": 16}),
+             examples={"quick": 4800, "thorough": 32000}, shards={"quick": 16, "thorough": 16}),
     ]
